@@ -26,11 +26,18 @@ FIELD_WORDS = ["alpha", "bravo", "count", "delta", "echo", "flag", "gold", "hp",
 ENUM_VALUE_WORDS = ["None", "Ok", "Fail", "Male", "Female", "Up", "Down", "Left", "Right", "Normal", "Hidden",
                     "Admin", "Guest", "Open", "Closed", "Red", "Green", "Blue", "Big", "Small", "A", "B2", "NPC",
                     "OnlyOne", "Busy", "Full", "Empty", "Used"]
+# class names that collide with names the generated modules import or with public classes of the library
 FORBIDDEN_TYPE_NAMES = {
     "Optional", "Union", "Iterable", "EoWriter", "EoReader", "SerializationError", "IntEnum", "Packet",
-    "ProtocolEnumMeta", "PacketFamily", "PacketAction", "Data", "Net", "Pub", "Map", "Client", "Server", "Protocol",
-    "Encrypt", "None", "True", "False", "Cast", "Annotations", "Type", "Generated",
+    "ProtocolEnumMeta", "PacketFamily", "PacketAction", "None", "True", "False", "Cast", "Annotations", "Type",
+    "Generated", "SequenceStart", "PacketSequencer", "AccountReplySequenceStart", "InitSequenceStart", "PingSequenceStart",
 }
+# type names whose MODULE name equals a documented package, module or function of the library (legal: only the
+# class is exported); a few (directory, name) pairs would put a module next to a package of the same name
+COLLISION_NAMES = ["Data", "Encrypt", "Protocol", "Net", "Map", "Pub", "Client", "Server", "Interleave", "Deinterleave",
+                   "FlipMsb", "SwapMultiples", "EncodeNumber", "DecodeNumber", "EncodeString", "DecodeString",
+                   "ServerVerificationHash", "EoNumericLimits", "NumberEncodingUtils", "EncryptionUtils"]
+FILESYSTEM_COLLISIONS = {"": {"map", "net", "pub"}, "net": {"client", "server"}, "pub": {"server"}}
 FAMILIES = ["Connection", "Account", "Character", "Login", "Welcome", "Walk", "Face", "Chair", "Emote", "Attack",
             "Spell", "Shop", "Item", "StatSkill", "Global", "Talk", "Warp", "Jukebox", "Players", "Avatar", "Party",
             "Refresh", "NPC", "PlayerRange", "NPCRange", "Range", "Paperdoll", "Effect", "Trade", "Chest", "Door",
@@ -69,6 +76,8 @@ class Knobs:
         self.p_optional_length_ref = p(0.15)
         self.upward_refs = False
         self.sibling_refs = rng.random() < 0.5   # types may refer to types of directories earlier in ORDER
+        self.net_last = rng.random() < 0.3       # net types may refer to net/client and net/server types (not vice versa)
+        self.p_collision_name = 0.2 if rng.random() < 0.3 else 0.0
 
 
 class TypeInfo:
@@ -97,9 +106,16 @@ class SpecGen:
         self.xml = {d: [] for d in DIRS}
 
     # ---- names ---------------------------------------------------------------------------
-    def type_name(self):
+    def type_name(self, path=""):
         rng = self.rng
         for _ in range(200):
+            if rng.random() < self.k.p_collision_name:
+                name = rng.choice(COLLISION_NAMES)
+                if (name.lower() not in self.used_lower and _snake(name) not in self.used_snake
+                        and _snake(name) not in FILESYSTEM_COLLISIONS.get(path, ())):
+                    self.used_lower.add(name.lower())
+                    self.used_snake.add(_snake(name))
+                    return name
             parts = []
             for _ in range(rng.choice([1, 2, 2, 3])):
                 parts.append(rng.choice(ACRONYMS) if rng.random() < 0.25 else rng.choice(WORDS))
@@ -112,7 +128,7 @@ class SpecGen:
             snake = _snake(name)
             if low in self.used_lower or snake in self.used_snake or keyword.iskeyword(snake) or keyword.iskeyword(name):
                 continue
-            if snake in ("map", "net", "pub", "client", "server", "packet", "data", "protocol"):
+            if snake in FILESYSTEM_COLLISIONS.get(path, ()) or snake == "packet":
                 continue
             if name.endswith("ClientPacket") or name.endswith("ServerPacket"):
                 continue
@@ -124,7 +140,7 @@ class SpecGen:
     # ---- enums ---------------------------------------------------------------------------
     def gen_enum(self, path, name=None, values=None, underlying=None):
         rng = self.rng
-        name = name or self.type_name()
+        name = name or self.type_name(path)
         t = TypeInfo(name, "enum", path)
         t.underlying = underlying or rng.choice(["byte", "char", "char", "short", "three", "int"])
         limit = {"byte": 256, "char": 253, "short": 64009, "three": 16194277, "int": 4097152081}[t.underlying]
@@ -178,6 +194,8 @@ class SpecGen:
     def visible(self, path, kind):
         if self.k.upward_refs:
             dirs = DIRS
+        elif self.k.net_last:
+            dirs = ORDER_NET_LAST[: ORDER_NET_LAST.index(path) + 1]
         elif self.k.sibling_refs:
             dirs = ORDER[: ORDER.index(path) + 1]
         else:
@@ -534,7 +552,7 @@ class SpecGen:
 
     # ---- top-level definitions -----------------------------------------------------------
     def gen_struct(self, path):
-        name = self.type_name()
+        name = self.type_name(path)
         rng = self.rng
         wb = [rng.choice([300, 3000, WEIGHT_LIMIT])]
         w0 = wb[0]
@@ -593,7 +611,7 @@ class SpecGen:
         self.gen_enum("net", "PacketFamily", [(f, i + 1) for i, f in enumerate(fams)], "byte")
         self.gen_enum("net", "PacketAction", [(a, i + 1) for i, a in enumerate(acts)], "byte")
         # types, shallow directories first so that deeper ones can refer to them
-        order = ORDER
+        order = ORDER_NET_LAST if k.net_last else ORDER
         weights = {"": 3, "map": 2, "pub": 2, "net": 3, "pub/server": 1, "net/client": 1, "net/server": 1}
         plan = []
         for _ in range(k.n_types):
@@ -618,6 +636,9 @@ class SpecGen:
 
 
 ORDER = ["", "map", "pub", "net", "pub/server", "net/client", "net/server"]
+# mutual references between two directories make the generated packages import each other (a package-level
+# cycle the layout cannot support); one extra direction is safe and generated: net -> net/client, net/server
+ORDER_NET_LAST = ["", "map", "pub", "pub/server", "net/client", "net/server", "net"]
 WEIGHT_LIMIT = 120_000
 LOOP_MAX = {"byte": 255, "char": 253, "short": 64009}
 UNBOUNDED_ELEMENTS = 400
